@@ -65,13 +65,14 @@ for k, v in UNITS.items():
 
 PROPS = {
     "C03": {
-        "units": ["range_parse"],
+        "units": ["range_parse", "response_gen"],
         "level": "proof",
         "falsifier": "range",
         "known_cases": ["end<len"],   # falsifier cases that are the known findings F2 (known_findings.txt)
         "samples": [
             "Range::parse_range_in_content_range / postcondition / res.is_ok() ==> range_ok(filelength, range_str@, res.unwrap())",
             "Range::parse_content_range / postcondition / forall j: part_ok(filepath, filelength, range_specs(raw)[j], res[j])",
+            "Response::generate_response / postcondition / res@ == response_bytes(version, code, reason, headers, list, method)  (Content-Range: bytes s-e/size, Content-Length: dec(body.len()), multipart/byteranges parts in order)",
         ],
         "assumptions": [
             "FileExt::read_file_partially returns bytes [start, min(end+1, len)) of the named file (contract read off file-ext 12.1.0)",
